@@ -243,3 +243,144 @@ def check_sim(job):
     finally:
         shutil.rmtree(tmp, ignore_errors=True)
     return findings
+
+
+# ---------------------------------------------------------------------------
+# C12: the per-iteration read cache
+CACHE_RESTARTS = [{"lo": 0, "hi": 8, "every": 4}, {"lo": 8, "hi": 16, "every": 4}]
+CACHE_QUERIES = [
+    {"it": [i], "vars": v, "rl": rl, "split": sp}
+    for i in ([4], [8], [4, 8], [0, 4, 8, 12], [12, 8])
+    for v in (["betax"], ["betax", "betay", "betaz"], ["alp"], ["betay", "alp"])
+    for rl in (0, 1) for sp in (True, False)
+]
+CACHE_QUERIES = [dict(q, it=q["it"][0]) for q in CACHE_QUERIES]
+TENSOR_NAME = {("betax", "betay", "betaz"): ["betaup3"]}
+
+
+def run_readcache(max_reads, queries=None, simulate=None, seed=None):
+    queries = queries or CACHE_QUERIES
+    q = lambda s: '"' + s + '"'
+    seq = lambda xs, f=str: "<<" + ", ".join(f(x) for x in xs) + ">>"
+    defs = {"Restarts": seq([f"[lo |-> {r['lo']}, hi |-> {r['hi']}, every |-> {r['every']}]" for r in CACHE_RESTARTS]),
+            "Queries": "{" + ", ".join(f"[it |-> {seq(x['it'])}, vars |-> {seq(x['vars'], q)}, rl |-> {x['rl']}, split |-> {'TRUE' if x['split'] else 'FALSE'}]"
+                                       for x in queries) + "}"}
+    name, text, cl = wrapper("ReadCache", defs)
+    cfg = f"""SPECIFICATION Spec
+CONSTANTS
+{cl}
+  NLev = 2
+  MaxReads = {max_reads}
+  Emit = TRUE
+INVARIANT CacheWellFiled
+INVARIANT EmitState
+PROPERTY CacheOnlyGrows
+PROPERTY UncachedReadsLeaveNoTrace
+"""
+    kw = {}
+    if simulate:
+        kw = dict(simulate=f"num={simulate}", depth=max_reads + 1, seed=seed)
+    return run_tlc(name, cfg, ["etsim"], extra_files={name + ".tla": text}, timeout=3000, **kw)
+
+
+def decode_cache(root, name, M, nrestarts):
+    """All datasets of all cache files -> list of (restart, it, var, rl, status, detail)."""
+    import glob
+    import h5py
+    out = []
+    for r in range(nrestarts):
+        d = os.path.join(root, name, f"output-{r:04d}", name, "all_iterations")
+        for fn in sorted(glob.glob(os.path.join(d, "it_*.hdf5"))):
+            i = int(os.path.basename(fn)[3:-5])
+            with h5py.File(fn, "r") as f:
+                for key in f.keys():
+                    v, rl = key.rsplit(" rl=", 1)
+                    rl = int(rl)
+                    a = np.array(f[key])
+                    if v == "it":
+                        out.append((r, i, v, rl, "ok" if int(a) == i else "wrong", int(a)))
+                    elif v == "t":
+                        out.append((r, i, v, rl, "ok" if float(a) == G.time_of(i) else "wrong", float(a)))
+                    else:
+                        ev = {"alpha": "alp", "rho0": "rho"}.get(v, v)
+                        w = G.truth(ev, r, i, rl, M) if ev in G.GROUPS else None
+                        ok = w is not None and a.shape == w.shape and np.array_equal(a, w)
+                        detail = None
+                        if not ok and a.shape == tuple(M):
+                            for r2 in range(nrestarts):
+                                for rl2 in range(2):
+                                    for i2 in range(0, 20, 4):
+                                        for c2 in G.VARS_DEFAULT:
+                                            if np.array_equal(a, G.truth(c2, r2, i2, rl2, M)):
+                                                detail = {"holds_var": c2, "restart": r2, "it": i2, "rl": rl2}
+                        out.append((r, i, v, rl, "ok" if ok else "wrong", detail))
+    return out
+
+
+def check_cache_history(job):
+    """One ReadCache behaviour prefix: replay the reads on a fresh directory, decode the cache after every call."""
+    recs, layout_idx = job           # recs: list of records (one per prefix length) of the same behaviour, sorted by length
+    import aurel.reading as R
+    findings = []
+    M = (3, 4, 3)
+    layout = LAYOUTS[layout_idx % 4]
+    chunks = TWO_CHUNKS[1](M)
+    tmp = tempfile.mkdtemp(prefix="vrc_")
+    try:
+        name = "sim"
+        G.make_sim(tmp + "/", name, CACHE_RESTARTS, M=M, ghost=2, chunks=chunks, layout=layout, nlev=2)
+        param = sim_param(tmp, name)
+        full = recs[-1]["hist"]
+        by_len = {len(r["hist"]): r for r in recs}
+        for n, q in enumerate(full, start=1):
+            comps = list(q["vars"])
+            vars_arg = TENSOR_NAME.get(tuple(comps), [AUREL_OF.get(c, c) for c in comps])
+            vars_arg = list(vars_arg)
+            it_arg = list(q["it"])
+            hist_txt = "; ".join(f"read(it={x['it']}, vars={x['vars']}, rl={x['rl']}, split_per_it={x['split']})" for x in full[:n])
+            try:
+                d = R.read_data(param, it=it_arg, vars=vars_arg, rl=q["rl"], split_per_it=q["split"], verbose=False, skip_last=False)
+            except Exception as ex:
+                findings.append(({"clause": "ReadReturnsTruth", "kind": "raises", "exc": type(ex).__name__, "layout": layout[1]},
+                                 f"{hist_txt} ({'-'.join(layout)}): the last call raised {type(ex).__name__}: {str(ex)[:160]}",
+                                 {"hist": full[:n], "layout": layout}))
+                break
+            rec = by_len.get(n)
+            its = sorted(set(q["it"]))
+            bad = None
+            if [int(i) for i in d["it"]] != its:
+                bad = f"it column {list(d['it'])}"
+            else:
+                for k, i in enumerate(its):
+                    r = 1 if i >= 8 else 0
+                    if d["t"][k] is None or float(d["t"][k]) != G.time_of(i):
+                        bad = f"t at it={i} is {d['t'][k]}"
+                        break
+                    for c in comps:
+                        a = d[AUREL_OF.get(c, c)][k]
+                        w = G.truth(c, r, i, q["rl"], M)
+                        if a is None or np.shape(a) != w.shape or not np.array_equal(a, w):
+                            bad = f"{AUREL_OF.get(c, c)} at it={i} rl={q['rl']} is not the stored data of restart {r}"
+                            break
+                    if bad:
+                        break
+            if bad:
+                findings.append(({"clause": "ReadReturnsTruth", "kind": "value", "layout": layout[1], "nreads": min(n, 3)},
+                                 f"{hist_txt} ({'-'.join(layout)}): the last call returned wrong data: {bad}",
+                                 {"hist": full[:n], "layout": layout}))
+            cache = decode_cache(tmp, name, M, len(CACHE_RESTARTS))
+            wrong = [c for c in cache if c[4] != "ok"]
+            if wrong:
+                findings.append(({"clause": "CacheEntrySound", "layout": layout[1]},
+                                 f"{hist_txt} ({'-'.join(layout)}): cache dataset(s) do not hold the data they are filed under "
+                                 f"(restart, it, var, rl, what it holds): {[(c[0], c[1], c[2], c[3], c[5]) for c in wrong[:3]]}",
+                                 {"hist": full[:n], "layout": layout}))
+                break
+            if rec is not None:
+                model = {(e["r"], e["i"], AUREL_OF.get(e["v"], e["v"]), e["rl"]) for e in rec["cache"]}
+                real = {(c[0], c[1], c[2], c[3]) for c in cache if c[2] not in ("it", "t")}
+                if not model <= real:
+                    findings.append(({"drift": True}, f"{hist_txt}: cache lacks entries the model expects: {sorted(model - real)[:4]}", None))
+    finally:
+        shutil.rmtree(tmp, ignore_errors=True)
+    return findings
